@@ -224,6 +224,19 @@ def run(ctx):
             early_bad += 1
             if early_bad >= 5:
                 break
+    # small scope, exhaustively: the interrupts are delivered at EVERY choice point of the base schedule (one deviation
+    # per signal), so every arrival time relative to every dispatcher/worker step of these small runs is covered
+    pbstat = {}
+    for (behs, f, batch, sigs, depth) in ([("oo", 1, True, "INT@0", 1), ("oo", 2, False, "INT@0", 1), ("oh", 2, False, "INT@0,TSTP@0", 2)] if quick else
+                                          [("oo", 1, True, "INT@0", 2), ("oo", 2, False, "INT@0,INT@0", 2), ("oh", 2, False, "INT@0,TSTP@0", 2),
+                                           ("oho", 2, False, "INT@0,TSTP@0", 2), ("ooo", 2, True, "INT@0", 1)]):
+        n = len(behs)
+        hosts = [("h%d" % i, "o", "A" + (b"o%d-0\n" % i).hex(), "-", 0) if b == "o" else ("h%d" % i, b, "-", "-", 0) for i, b in enumerate(behs)]
+        args = ["-R", "sim", "-f", str(f), "-t", "2"] + (["-b"] if batch else []) + ["-w", "h[0-%d]" % (n - 1), "cmd"]
+        pr = schedeng.explore_pb(eng, args, hosts, depth, sigs=sigs, max_runs=1500 if quick else 150000, env={"SCHED_MAXSTEP": "30000"}, timeout=10)
+        pbstat["%s f=%d %s%s depth=%d" % (behs, f, sigs, " -b" if batch else "", depth)] = len(pr)
+        for ru in pr:
+            runs.append((ru, n, f, batch, 2, behs, hosts, sigs, 0))
     cases = []
     for ru, n, f, batch, tconn, behs, hosts, sigs, ptick in runs:
         cases.append("sys %d %d %d 0 %d %s %d %s" % (n, f, tconn, 1 if batch else 0, behs, T0, " ".join(ru.sys_events())))
@@ -262,6 +275,7 @@ def run(ctx):
         "evaluations": len(runs), "distinct_nontrivial": len(set(c for c in cases if len(c) > 80)),
         "traces_validated_against_impl": nacc,
         "rule": "runs of the whole pdsh program under the controlled scheduler with scripted signals: 1..5 targets (ok / refusing / hanging in connect), fanout 1..N+1, with and without -b, one of {^C, ^C ^C, ^C ^Z, ^Z, ^C ^C ^C} delivered at scheduler steps drawn over the whole run (before the first connection, between completions, during the final drain), gaps of 1..60 steps and virtual-time spacing by random clock ticks; every trace must be a run of the Coq timed transition system (signals thread included) and is judged for: abort with forwarding to exactly the running commands and non-zero exit, list-only with the run continuing unharmed to exit 0 and full output, ^Z cancelling only hosts not started or connecting, no deadlock; distinct = distinct event trace",
+        "exhaustive_bounded_deviation_schedules": pbstat,
         "samples": samples, "input_distribution": dist, "corpus_cases": len(corpus), "disagreements": bad})
     return ctx.finish(cov, ["signal delivery is modelled as sigwait() returning the scripted signal at a scheduler-chosen step; real asynchronous delivery cannot differ because every other thread blocks SIGINT/SIGTSTP",
                             "interleavings at the granularity of the wrapped calls", "the transport is the scripted module"])
